@@ -3,7 +3,8 @@ import ast
 
 from sa import astq
 from sa.astq import norm_text, ev_setattr
-from sa.idioms import guarded, reach_under, combine, attr_truth
+from sa.idioms import (guarded, reach_under, combine, attr_truth, nodes_within,
+                       may_end_with_none, must_end_with_none, branch_starts, eq_test)
 from sa.project import dotted, walk_local, AnalysisError
 
 EXPLANATION = (    "Shutdown chain decided on the source: R1 SIGINT/SIGTERM/SIGQUIT are in the "
@@ -45,16 +46,14 @@ def r1(run, ctx):
     cls = ctx.p.cls('circus.sighandler:SysHandler')
     names = cls.attr('_SIGNALS_NAMES')
     posix = None
-    if isinstance(names, ast.IfExp) and 'IS_WINDOWS' in norm_text(names.test):
-        posix = astq.const_value(names.orelse)
-    elif isinstance(names, ast.Constant):
-        posix = names.value
+    if isinstance(names, ast.Constant):
+        posix = names.value           # (the POSIX side of a platform switch)
     if not isinstance(posix, str):
         raise AnalysisError('C08 R1: unrecognised _SIGNALS_NAMES form')
     regd = posix.split()
     sigs = cls.attr('SIGNALS')
     run.check('R1', sigs is not None and '_SIGNALS_NAMES.split()' in norm_text(sigs) and
-              astq.has_pattern(sigs, "getattr(signal, 'SIG%s' % $x) for $x in"), 'SIGNALS is built from every listed name', None,
+              astq.has_pattern(sigs, "[getattr(signal, 'SIG%s' % $x) for $x in _SIGNALS_NAMES.split()]"), 'SIGNALS is built from every listed name', None,
               'SysHandler.SIGNALS')
     reg = ctx.fn(H + '_register')
     cfg = ctx.cfg(reg)
@@ -323,7 +322,6 @@ def r6(run, ctx):
     kills = [n for n in ctx.live_nodes(v) if any(
         dotted(c.func) == 'os.kill' and len(c.args) == 2 and
         astq.const_value(c.args[1], None) == 0 for c in n.calls())]
-    run.count('R6', len(rets), 3, 'returns of Pidfile.validate')
     if run.need('R6', kills, 'os.kill(pid, 0) probe in validate', v) and \
             run.need('R6', nonnull, 'a pid-returning path in validate', v):
         for n in nonnull:
@@ -342,7 +340,8 @@ def r6(run, ctx):
                 isinstance(c.args[0], ast.Name) and c.args[0].id == n.ast.value.id
                 for k in kills for c in k.calls() if dotted(c.func) == 'os.kill'),
                 'the pid returned is the one probed', v, n.ast)
-    # error outcomes -> None
+    # error outcomes -> None, decided on paths: a handler "means stale" when the
+    # function can end without a value from it
     src = norm_text(v.node)
     hs = {}
     for t in ast.walk(v.node):
@@ -352,33 +351,51 @@ def r6(run, ctx):
                            else [dotted(h.type)] if h.type is not None else ['*']):
                     hs.setdefault(nm, []).append(h)
 
-    def returns_none(stmts, cond=None):
-        for st in stmts:
-            if isinstance(st, ast.Return) and (st.value is None or
-                                               astq.const_value(st.value, 'x') is None):
-                return True
-            if isinstance(st, ast.If) and cond and cond in norm_text(st.test):
-                return returns_none(st.body)
-        return False
-    run.check('R6', any(returns_none(h.body) for h in hs.get('ValueError', [])),
-              'garbled contents -> stale (None)', v, v.node,
-              'a garbled pid file is not taken over')
-    run.check('R6', any(returns_none(h.body, 'ESRCH') for h in hs.get('OSError', [])),
-              'no such process (ESRCH) -> stale (None)', v, v.node,
-              'a pid file naming a dead process is not taken over')
-    # the only probe failure that means "stale" is ESRCH (EPERM = alive, owned by someone else)
+    def hnode(h):
+        return [n for n in cfg.nodes if n.kind == 'except' and n.ast is h]
+
     def errnos(test):
-        out = set()
+        """(errno names compared, True if the test is true exactly for them)"""
+        out, pos = set(), None
         for e in ast.walk(test):
             if isinstance(e, ast.Compare) and len(e.ops) == 1:
                 c = e.comparators[0]
-                if isinstance(e.ops[0], ast.Eq) and (dotted(c) or '').startswith('errno.'):
-                    out.add(dotted(c))
-                if isinstance(e.ops[0], ast.Eq) and (dotted(e.left) or '').startswith('errno.'):
-                    out.add(dotted(e.left))
-                if isinstance(e.ops[0], ast.In) and isinstance(c, (ast.Tuple, ast.List, ast.Set)):
-                    out |= {dotted(x) for x in c.elts if dotted(x)}
+                op = e.ops[0]
+                names = set()
+                if isinstance(op, (ast.Eq, ast.NotEq)):
+                    for x in (c, e.left):
+                        if (dotted(x) or '').startswith('errno.'):
+                            names.add(dotted(x))
+                if isinstance(op, (ast.In, ast.NotIn)) and \
+                        isinstance(c, (ast.Tuple, ast.List, ast.Set)):
+                    names |= {dotted(x) for x in c.elts if (dotted(x) or '').startswith('errno.')}
+                if names:
+                    out |= names
+                    pos = isinstance(op, (ast.Eq, ast.In))
+        return out, pos
+
+    def stale_errnos(h):
+        """errno names for which handler h lets validate() end with None;
+        'ALL' when it does so whatever the errno"""
+        inside = nodes_within(cfg, h.body)
+        tests = [t for t in inside if t.kind == 'test' and errnos(t.ast)[0]]
+        if not tests:
+            return {'ALL'} if may_end_with_none(cfg, hnode(h)) else set()
+        out = set()
+        for t in tests:
+            names, pos = errnos(t.ast)
+            for lab in ('true', 'false'):
+                if may_end_with_none(cfg, branch_starts(cfg, t, lab)):
+                    out |= names if (lab == 'true') == pos else {'ALL'}
         return out
+    run.check('R6', any(must_end_with_none(cfg, hnode(h)) for h in hs.get('ValueError', [])),
+              'garbled contents -> stale (None)', v, v.node,
+              'a garbled pid file is not taken over')
+    run.check('R6', any('errno.ESRCH' in stale_errnos(h) for h in hs.get('OSError', [])),
+              'no such process (ESRCH) -> stale (None)', v, v.node,
+              'a pid file naming a dead process is not taken over')
+
+    # the only probe failure that means "stale" is ESRCH (EPERM = alive, owned by someone else)
     def innermost(t):
         return not any(isinstance(x, ast.Try) and x is not t and any(
             isinstance(c, ast.Call) and dotted(c.func) == 'os.kill' for c in ast.walk(x))
@@ -388,30 +405,28 @@ def r6(run, ctx):
                 isinstance(c, ast.Call) and dotted(c.func) == 'os.kill'
                 for st in t.body for c in ast.walk(st)):
             for h in t.handlers:
-                stale = set()
-                bare_return = False
-                for st in h.body:
-                    if isinstance(st, ast.If) and returns_none(st.body):
-                        stale |= errnos(st.test)
-                    if isinstance(st, ast.Return):
-                        bare_return = True
-                run.check('R6', stale == {'errno.ESRCH'} and not bare_return,
+                stale = stale_errnos(h)
+                run.check('R6', stale == {'errno.ESRCH'},
                           'a failed liveness probe means "stale" only for ESRCH; any other error '
                           '(EPERM = the process exists) is not a take-over', v, h,
                           'probe errors %s are treated as "no such process": a pid file naming a '
                           'live process of another user is taken over and later unlinked'
-                          % (sorted(stale) if not bare_return else 'ALL'),
-                          construct='probe errnos treated as stale')
-    run.check('R6', any(returns_none(h.body, 'ENOENT') for h in
+                          % sorted(stale), construct='probe errnos treated as stale')
+    run.check('R6', any('errno.ENOENT' in stale_errnos(h) for h in
                         hs.get('IOError', []) + hs.get('OSError', []) + hs.get('FileNotFoundError', [])),
               'missing file (ENOENT) -> None', v, v.node)
-    le0 = [t for t in cfg.nodes if t.kind == 'test' and isinstance(t.ast, ast.Compare) and
-           isinstance(t.ast.ops[0], (ast.LtE, ast.Lt)) and
-           astq.const_value(t.ast.comparators[0], None) in (0, 1)]
-    run.check('R6', bool(le0) and all(n.id not in cfg.branch_nodes(le0[0], 'true') or
-                                      not cfg.dominates([le0[0]], n) or True for n in nonnull) and
-              all(not (n.id in cfg.branch_nodes(le0[0], 'true') and
-                       n.id not in cfg.branch_nodes(le0[0], 'false')) for n in kills),
+
+    def positive(e):
+        """atom: truth of `pid > 0` when e is a comparison of a name with 0/1"""
+        if isinstance(e, ast.Compare) and len(e.ops) == 1 and isinstance(e.left, ast.Name):
+            k = astq.const_value(e.comparators[0], None)
+            op = type(e.ops[0])
+            if (op, k) in ((ast.Gt, 0), (ast.GtE, 1)):
+                return True
+            if (op, k) in ((ast.LtE, 0), (ast.Lt, 1)):
+                return False
+        return None
+    run.check('R6', bool(kills) and all(guarded(cfg, k, positive, True) for k in kills),
               'an empty or non-positive pid is never probed', v, v.node,
               'pid 0 / negative pids are probed with kill (process groups!)')
     run.check('R6', 'int(f.read() or 0)' in src or 'or 0' in src, 'an empty file reads as 0', v,
@@ -438,8 +453,9 @@ def r6(run, ctx):
             t = norm_text(e)
             if t == 'oldpid':
                 return True
-            if t in ('oldpid == pid', 'pid == oldpid'):
-                return False
+            eq = eq_test(e, 'oldpid', 'pid')
+            if eq is not None:
+                return not eq
             return None
         r = reach_under(cfg, cfg.entry, assume_live_foreign, avoid=raises, labels_excluded=('exc',))
         run.check('R6', not any(o.id in r for o in opens) and cfg.exit.id not in r,
